@@ -618,6 +618,11 @@ def A3_A5_shared(rep, flow: Flow, entry_fqs):
                     kk = vkey(key)
                     comps = key_components(kk)
                     cores = {_strip_faithful(c) for c in comps} | set(comps)
+                    # a component joined from several branches (one variable, assigned on alternative paths) stands for
+                    # whichever alternative was taken: the alternatives themselves are covered by it
+                    for c in list(cores):
+                        if isinstance(c, tuple) and c and c[0] == "alt":
+                            cores |= {x for x in c[1:] if isinstance(x, tuple)}
                     unc = set()
                     allp = set()
                     for vk in _value_keys(r, val):
